@@ -1,8 +1,9 @@
 // Unit c06_host — property C06: "closed handles stay closed", issued handles are fresh.
 // Real code under contract: HostRuntime::{new, open_reader, create_writer, append_writer, open_writer, close_reader, close_writer},
-// HostIoError::closed (lang/dynamics/src/host.rs), copied byte for byte.
+// HostRuntime::{reader, writer}, HostIoError::closed, HostIoErrorKind::from_error (lang/dynamics/src/host.rs), copied byte for byte.
 // The std file-system API the code calls is replaced by SIGNATURE-ONLY stand-ins of the same names (no behaviour: every
 // result is unconstrained), so the extracted text compiles verbatim; this is assumption A-std-fs.
+#![feature(allocator_api)]
 use vstd::prelude::*;
 use std::collections::HashMap;
 verus! {
@@ -14,8 +15,11 @@ pub mod io {
     #[verifier::external_body] pub struct Error { _p: () }
     pub type Result<T> = core::result::Result<T, Error>;
     impl Error {
-        #[verifier::external_body] pub fn new(kind: ErrorKind, msg: &str) -> (r: Error) { unimplemented!() }
+        #[verifier::external_body] pub fn new(kind: ErrorKind, msg: &str) -> (r: Error) ensures kind_of(r) == kind, { unimplemented!() }
+        #[verifier::external_body] pub fn kind(&self) -> (r: ErrorKind) ensures r == kind_of(*self), { unimplemented!() }
     }
+    // ghost: the category an error value carries (what `Error::new` was given, what `Error::kind` reports)
+    pub uninterp spec fn kind_of(e: Error) -> ErrorKind;
     #[verifier::external_body] #[verifier::reject_recursive_types(R)] pub struct BufReader<R> { _p: core::marker::PhantomData<R> }
     impl<R> BufReader<R> {
         #[verifier::external_body] pub fn new(inner: R) -> (r: BufReader<R>) { unimplemented!() }
@@ -68,8 +72,43 @@ impl WriterHandle {
 impl HostIoError {
 /*@fn lang/dynamics/src/host.rs :: impl HostIoError :: fn closed
 @*/
+    ensures
+        // [CLOSED-KIND] the "capability is closed" error carries the category that `from_error` maps to `Closed`
+        io::kind_of(r) is NotConnected,
 /*@end*/
 }
+/*@type lang/dynamics/src/host.rs :: enum HostIoErrorKind
+   derive Clone, Copy, Debug, PartialEq, Eq, Structural
+@*/
+impl HostIoErrorKind {
+/*@fn lang/dynamics/src/host.rs :: impl HostIoErrorKind :: fn from_error
+@*/
+    ensures
+        // [KIND-TABLE] the stable category table; in particular only a closed capability is reported as `Closed`
+        r is Closed <==> io::kind_of(*error) is NotConnected,
+        r is NotFound <==> io::kind_of(*error) is NotFound,
+        r is PermissionDenied <==> io::kind_of(*error) is PermissionDenied,
+        r is AlreadyExists <==> io::kind_of(*error) is AlreadyExists,
+        r is InvalidInput <==> io::kind_of(*error) is InvalidInput,
+        r is InvalidData <==> io::kind_of(*error) is InvalidData,
+        r is BrokenPipe <==> io::kind_of(*error) is BrokenPipe,
+        r is Other <==> io::kind_of(*error) is Other,
+/*@end*/
+}
+
+// A-std-get_mut: HashMap::get_mut finds exactly the present keys, hands out the stored value, and never changes the key set
+pub assume_specification<'a, K, V, S, A, Q> [std::collections::HashMap::<K, V, S, A>::get_mut] (m: &'a mut std::collections::HashMap<K, V, S, A>, k: &Q) -> (r: std::option::Option<&'a mut V>)
+    where
+        A: std::alloc::Allocator,
+        K: std::cmp::Eq + std::hash::Hash + std::borrow::Borrow<Q>,
+        Q: std::marker::MetaSized + std::hash::Hash + std::cmp::Eq + ?Sized,
+        S: std::hash::BuildHasher,
+    ensures
+        r.is_some() <==> vstd::std_specs::hash::contains_borrowed_key(old(m)@, k),
+        final(m)@.dom() == old(m)@.dom(),
+        r matches Some(v) ==> vstd::std_specs::hash::maps_borrowed_key_to_value(old(m)@, k, *v),
+        r is None ==> final(m)@ == old(m)@,
+;
 
 // A-key-model: derived Hash/Eq on a `usize` newtype is a lawful hash-map key (vstd ships this axiom for primitive keys only)
 pub mod keys {
@@ -163,6 +202,36 @@ impl HostRuntime {
         forall|h: WriterHandle| old(self).writer_closed(h) ==> final(self).writer_closed(h),
 /*@end*/
 
+/*@fn lang/dynamics/src/host.rs :: impl HostRuntime :: fn reader
+@*/
+    requires old(self).wf(),
+    ensures
+        // [LOOKUP-RESULT] exactly the open handles are served; a closed or never-issued handle is an error
+        r is Ok <==> old(self).readers@.contains_key(handle),
+        // [LOOKUP-SAME] ... and what is served is the resource opened under THAT handle, not another one's
+        r is Ok ==> *r->Ok_0 == old(self).readers@[handle],
+        // [LOOKUP-CLOSED-KIND] the error is the "closed" one
+        r is Err ==> io::kind_of(r->Err_0) is NotConnected,
+        // [LOOKUP-FRAME] a lookup never opens, closes or reissues anything
+        final(self).readers@.dom() == old(self).readers@.dom(),
+        final(self).next_reader == old(self).next_reader && final(self).writers@ == old(self).writers@ && final(self).next_writer == old(self).next_writer,
+/*@end*/
+
+/*@fn lang/dynamics/src/host.rs :: impl HostRuntime :: fn writer
+@*/
+    requires old(self).wf(),
+    ensures
+        // [LOOKUPW-RESULT]
+        r is Ok <==> old(self).writers@.contains_key(handle),
+        // [LOOKUPW-SAME]
+        r is Ok ==> *r->Ok_0 == old(self).writers@[handle],
+        // [LOOKUPW-CLOSED-KIND]
+        r is Err ==> io::kind_of(r->Err_0) is NotConnected,
+        // [LOOKUPW-FRAME]
+        final(self).writers@.dom() == old(self).writers@.dom(),
+        final(self).next_writer == old(self).next_writer && final(self).readers@ == old(self).readers@ && final(self).next_reader == old(self).next_reader,
+/*@end*/
+
 /*@fn lang/dynamics/src/host.rs :: impl HostRuntime :: fn close_reader
 @*/
     requires old(self).wf(),
@@ -171,6 +240,8 @@ impl HostRuntime {
         final(self).wf(),
         // [CLOSE-RESULT] closing succeeds exactly on standard input and on open handles; a closed handle reports an error
         r is Ok <==> (handle.0 == 0 || old(self).readers@.contains_key(handle)),
+        // [CLOSE-CLOSED-KIND]
+        r is Err ==> io::kind_of(r->Err_0) is NotConnected,
         // [CLOSE-EXACT] exactly that handle is removed, nothing is ever (re)opened by a close
         final(self).readers@.dom() =~= old(self).readers@.dom().remove(handle),
         // [CLOSE-CLOSED-STAY]
@@ -187,6 +258,8 @@ impl HostRuntime {
         final(self).wf(),
         // [CLOSEW-RESULT] a closed (or never issued) non-standard handle reports an error
         !(handle.0 == 0 || handle.0 == 1 || old(self).writers@.contains_key(handle)) ==> r is Err,
+        // [CLOSEW-CLOSED-KIND] closing a closed handle reports the "closed" category (an open one may report what flush reports)
+        !(handle.0 == 0 || handle.0 == 1 || old(self).writers@.contains_key(handle)) ==> r is Err && io::kind_of(r->Err_0) is NotConnected,
         // [CLOSEW-EXACT]
         final(self).writers@.dom() =~= old(self).writers@.dom().remove(handle),
         // [CLOSEW-CLOSED-STAY]
